@@ -347,7 +347,8 @@ func (x *Exec) spawn(name string, body func()) *Thread {
 					buf := make([]byte, 4096)
 					n := runtime.Stack(buf, false)
 					x.Panics = append(x.Panics, fmt.Sprintf("%s: %v", t.Name, r))
-					x.logf("[%d:%s] DIED WITH PANIC %v\n%s", t.ID, t.Name, r, buf[:n])
+					x.logf("[%d:%s] DIED WITH PANIC %v", t.ID, t.Name, r)
+					x.logf("      | %s", strings.ReplaceAll(string(buf[:n]), "\n", "\n      | "))
 				}
 			}
 			t.done = true
